@@ -56,6 +56,10 @@ class Folder:
             raise Unknown(f"constant {qual}: module not in the repository")
         d = mod.defs.get(name)
         if not isinstance(d, ConstInfo) or d.value is None:
+            # imported from the module it was moved to?
+            r = self.repo.lookup(name, mod, None) if d is None or not isinstance(d, ConstInfo) else None
+            if isinstance(r, ConstInfo) and r.value is not None and r.module is not mod:
+                return self.const(r.qual)
             raise Unknown(f"{qual} is not a module-level constant")
         if len(d.assigns) != 1:
             raise Unknown(f"{qual} is assigned {len(d.assigns)} times")
